@@ -33,7 +33,7 @@ class Report:
         self.assumptions = []
         self.notes = []
         kf = load_known()
-        self.known = {f["id"]: f for f in kf.get("findings", []) if f.get("property") == prop}
+        self.known = {f["id"]: f for f in kf.get("findings", []) if f.get("property") == prop or prop in f.get("also_affects", [])}
         os.makedirs(REPLAY, exist_ok=True)
         # remove stale replay files of this property
         for f in os.listdir(REPLAY):
